@@ -100,6 +100,9 @@ type SimReader struct {
 	Clock *core.Clock
 	// FailErr is what a fail step returns.
 	FailErr error
+	// ForgetFail: a failure delivered together with data is reported once;
+	// later reads return a plain io.EOF (a source that does not repeat itself).
+	ForgetFail bool
 	// Front, when set, is the reader the scanner is given instead of the
 	// SimReader itself (a wrapper around it); Ahead returns what that wrapper
 	// has read from the SimReader and not handed on yet.
@@ -292,6 +295,11 @@ func (r *SimReader) Read(p []byte) (int, error) {
 						r.Stats.EOFWithData++
 					} else {
 						r.Stats.FailWith++
+						if r.ForgetFail {
+							// reported once, together with the data; afterwards
+							// the source only says it is over
+							r.term = io.EOF
+						}
 					}
 				}
 			}
